@@ -871,7 +871,7 @@ func checkC05(c *Ctx) {
 		"(C05.cursor) the lexer cursor only moves inside [0, len(Source)] and every syntax-error constructor receives a position derived from GetCursor() / a token's StartIdx; " +
 		"(C05.nilderef) the not-yet-existing current token (TokenP1) and possibly-nil line infos are dereferenced only under a nil test (or a reviewed invariant); " +
 		"(C05.index) every bounds check of the front end and the error printer that the compiler cannot prove is in the reviewed table with its invariant; (C05.render) the caret line never repeats a negative count. " +
-		"NOT decided: 'promptly' (complexity), that the quoted line is the right line (C18)."
+		"(C05.errdrop) after every call of a front-end function that can fail, a normal return is reachable only over the nil edge of a test of that error or by returning it (an error is never dropped and a zero token never mistaken for EOF). NOT decided: 'promptly' (complexity), that the quoted line is the right line (C18)."
 	R.Assumptions = []string{"Lexer.getChar returns RuneEOF at and beyond the end of input", "tables/progress_allow.json and tables/bce.json reviewed entry by entry"}
 	u := c.Core()
 	u.buildSSA()
@@ -956,6 +956,44 @@ func checkC05(c *Ctx) {
 		}
 		R.check(ok, "C05.cursor", "pkg/syntax/zh.ParserZH."+name, u.pos(f.Pos()), "the error position is the start index of the peek/current token", "a parser error is positioned by something other than a token's start index")
 	}
+
+	// ---- C05.errdrop: an error produced inside the front end is never dropped - after a call that can fail,
+	// a normal return is reachable only over the nil edge of a test of that error, or by returning the error
+	nED := 0
+	for _, rel := range frontPkgs {
+		for _, f := range u.srcFuncs(rel) {
+			name := u.fname(f)
+			if strings.Contains(name, "tringify") {
+				continue
+			}
+			tests := nilTests(f)
+			for _, in := range instrsOf(f) {
+				call, ok := in.(*ssa.Call)
+				if !ok {
+					continue
+				}
+				callee := call.Call.StaticCallee()
+				if callee == nil || callee.Pkg == nil || !strings.HasPrefix(callee.Pkg.Pkg.Path(), modPath) {
+					continue
+				}
+				res := callee.Signature.Results()
+				if res.Len() == 0 || !isErrorType(res.At(res.Len()-1).Type()) {
+					continue
+				}
+				nED++
+				key := name + ":" + siteName(u, f, call)
+				errV := errResult(call)
+				if errV == nil {
+					R.viol("C05.errdrop", key, u.pos(call.Pos()), "the error result is discarded")
+					continue
+				}
+				bad := errorDroppedAt(u, f, call, errV, tests)
+				R.check(bad == "", "C05.errdrop", key, u.pos(call.Pos()), "a failure of this call ends in a panic / returned error on every path", "when this call fails the function can still return normally at "+bad+" without reporting the error (the failure is dropped and a half-built result is used)")
+			}
+		}
+	}
+	R.count("front_end_error_calls", nED)
+	R.min("C05.errdrop", 30)
 
 	// ---- C05.cursor
 	msg := lexerCursorClamped(u)
@@ -1113,4 +1151,95 @@ func checkC05(c *Ctx) {
 		return strings.HasPrefix(file, "pkg/syntax/") || strings.HasSuffix(file, "error_printer.go") || strings.HasSuffix(file, "exec_varinput.go")
 	})
 	R.min("C05.index", 12)
+}
+
+// errorDroppedAt: after `call` (whose error result is errV) a normal return of f is reachable without crossing
+// the nil edge of a test of that error and without returning the error: the position of such a return, or ""
+func errorDroppedAt(u *Universe, f *ssa.Function, call ssa.CallInstruction, errV ssa.Value, tests []nilTest) string {
+	// values that carry this error: itself and phis it feeds
+	carriers := map[ssa.Value]bool{errV: true}
+	for changed := true; changed; {
+		changed = false
+		for _, x := range instrsOf(f) {
+			if phi, ok := x.(*ssa.Phi); ok && !carriers[phi] {
+				for _, e := range phi.Edges {
+					if carriers[e] {
+						carriers[phi] = true
+						changed = true
+					}
+				}
+			}
+		}
+	}
+	nilEdges := map[cfgEdge]bool{}
+	for _, t := range tests {
+		if carriers[t.X] {
+			nilEdges[cfgEdge{t.If.Block(), t.OnNil}] = true
+		}
+	}
+	// `err == io.EOF` is the end-of-input signal of the io.Reader contract, not a failure
+	isEOF := func(v ssa.Value) bool {
+		un, ok := v.(*ssa.UnOp)
+		if !ok || un.Op != token.MUL {
+			return false
+		}
+		g, ok := un.X.(*ssa.Global)
+		return ok && g.Name() == "EOF" && g.Pkg != nil && g.Pkg.Pkg.Path() == "io"
+	}
+	for _, b := range f.Blocks {
+		ifi, ok := b.Instrs[len(b.Instrs)-1].(*ssa.If)
+		if !ok {
+			continue
+		}
+		bo, ok := ifi.Cond.(*ssa.BinOp)
+		if !ok || (bo.Op != token.EQL && bo.Op != token.NEQ) {
+			continue
+		}
+		if (carriers[bo.X] && isEOF(bo.Y)) || (carriers[bo.Y] && isEOF(bo.X)) {
+			if bo.Op == token.EQL {
+				nilEdges[cfgEdge{b, b.Succs[0]}] = true
+			} else {
+				nilEdges[cfgEdge{b, b.Succs[1]}] = true
+			}
+		}
+	}
+	bad := ""
+	seen := map[*ssa.BasicBlock]bool{}
+	var walk func(b *ssa.BasicBlock, from int)
+	walk = func(b *ssa.BasicBlock, from int) {
+		for i := from; i < len(b.Instrs); i++ {
+			if ret, ok := b.Instrs[i].(*ssa.Return); ok {
+				prop := false
+				for j := range ret.Results {
+					rv := retValue(ret, j)
+					if isErrorType(rv.Type()) {
+						if flowsFrom(rv, func(v ssa.Value) bool { return carriers[v] }) {
+							prop = true
+						}
+						// any freshly built error on this path also reports the failure
+						if provablyNonNilError(rv) {
+							prop = true
+						}
+					}
+					// `return f()` spelled as a tuple extract of the same call
+					if ex, ok := rv.(*ssa.Extract); ok && ex.Tuple == call.Value() {
+						prop = true
+					}
+				}
+				if !prop && bad == "" {
+					bad = u.pos(ret.Pos())
+				}
+				return
+			}
+		}
+		for _, sc := range b.Succs {
+			if nilEdges[cfgEdge{b, sc}] || seen[sc] {
+				continue
+			}
+			seen[sc] = true
+			walk(sc, 0)
+		}
+	}
+	walk(call.Block(), instrIndex(call)+1)
+	return bad
 }
